@@ -1745,6 +1745,8 @@ impl Transaction {
 
                 // Assign row IDs to any fragments that don't have them yet
                 // (e.g., inserted rows from merge_insert operations)
+                // Row ids at or above this one are new rows, created by this operation.
+                let first_new_row_id = next_row_id;
                 if let Some(next_row_id) = &mut next_row_id {
                     Self::assign_row_ids(next_row_id, new_fragments.as_mut_slice())?;
                 }
@@ -1754,9 +1756,25 @@ impl Transaction {
                 if next_row_id.is_some() {
                     let new_version = current_manifest.map(|m| m.version + 1).unwrap_or(1);
 
-                    // Build a map of original fragment ID -> original fragment for lookup
-                    let original_frags_map: std::collections::HashMap<u64, &Fragment> =
-                        existing_fragments.iter().map(|f| (f.id, f)).collect();
+                    // Stable row ids are not row addresses, so the created_at version of a
+                    // rewritten row is found through the row id sequences of the fragments
+                    // the rows were taken from: row id -> created_at version
+                    let mut created_at_by_row_id: HashMap<u64, u64> = HashMap::new();
+                    for orig_frag in existing_fragments.iter().filter(|f| {
+                        removed_fragment_ids.contains(&f.id)
+                            || updated_fragments.iter().any(|uf| uf.id == f.id)
+                    }) {
+                        let (Some(RowIdMeta::Inline(data)), Some(created_meta)) =
+                            (&orig_frag.row_id_meta, &orig_frag.created_at_version_meta)
+                        else {
+                            continue;
+                        };
+                        if let (Ok(orig_row_ids), Ok(seq)) =
+                            (read_row_ids(data), created_meta.load_sequence())
+                        {
+                            created_at_by_row_id.extend(orig_row_ids.iter().zip(seq.versions()));
+                        }
+                    }
 
                     for fragment in new_fragments.iter_mut() {
                         // For update operations with RewriteRows mode:
@@ -1782,35 +1800,17 @@ impl Transaction {
                             let mut created_at_versions = Vec::with_capacity(physical_rows);
 
                             for row_id in row_ids.iter() {
-                                // Row ID format: upper 32 bits = fragment ID, lower 32 bits = row offset
-                                let orig_frag_id = row_id >> 32;
-                                let row_offset = (row_id & 0xFFFFFFFF) as usize;
-
-                                // Look up the original fragment
-                                if let Some(orig_frag) = original_frags_map.get(&orig_frag_id) {
-                                    // Get created_at version from original fragment's metadata
-                                    let created_version = if let Some(created_meta) =
-                                        &orig_frag.created_at_version_meta
-                                    {
-                                        // Load and index into the version sequence
-                                        match created_meta.load_sequence() {
-                                            Ok(seq) => {
-                                                let versions: Vec<u64> = seq.versions().collect();
-                                                versions.get(row_offset).copied().unwrap_or(1)
-                                            }
-                                            Err(_e) => {
-                                                1 // Default to version 1 on error
-                                            }
-                                        }
-                                    } else {
-                                        // No metadata on original fragment, default to version 1
-                                        1
-                                    };
-                                    created_at_versions.push(created_version);
+                                let created_version = if first_new_row_id
+                                    .is_some_and(|first_new| row_id >= first_new)
+                                {
+                                    // A row inserted by this operation
+                                    new_version
                                 } else {
-                                    // Original fragment not found, default to version 1
-                                    created_at_versions.push(1);
-                                }
+                                    // Default to version 1 if the original fragment has no
+                                    // version metadata
+                                    created_at_by_row_id.get(&row_id).copied().unwrap_or(1)
+                                };
+                                created_at_versions.push(created_version);
                             }
 
                             // Build version metadata from the collected versions
